@@ -45,4 +45,12 @@ CHECKS = {
         text="Every reachable state of the Taus object under the op alphabet is visited and in each every op is compared bit for bit with a fresh object; every node/mid-point/clamp point is compared with an independent bilinear-in-log10 reference read straight from the HDF5 files.",
         note="state hash is finer than necessary (all arrays reachable from __dict__); hidden state outside the object is covered by the un-deduplicated sequence pass; floor accepted to 1e-5 relative",
     ),
+    "C04": dict(
+        engine="E1-lattice",
+        level="exploration",
+        design_ref="DESIGN.md §3 C04",
+        technique="bounded exhaustive enumeration: every (log-energy node/mid-point, angle node/mid-point/clamp value) of every table version x per-row u alphabet (all interior node values, mid-points between nodes, grid, edges) through Taus.tau_energy and grid_cdf_sampler; all 3^n assignments of {below,inside,above} angles to batches of n<=4 events with explicit u",
+        text="At every lattice point F_ref(z_out)=u is checked against an independent four-corner blend and piecewise-linear CDF read straight from the HDF5 files, plus range, monotonicity in u, clamps, rejection of out-of-range energies and explicit-u == single-event == internal-generator equivalence.",
+        note="u restricted to the row's open CDF range with a 2e-15 guard band at the top (the property's own quantifier); nothing is claimed between lattice points",
+    ),
 }
